@@ -328,6 +328,12 @@ def make_jobs(check, rnd):
     for k, suite in enumerate(SUITES):
         jobs.append({"cfg": {"suite": suite, "version": "v2" if k == 1 else "v1", "mds": 1280}, "ops": far, "seed": rnd.randrange(1 << 30),
                      "forge": False, "thorough": not check.quick, "budget": 0, "slice": [0, 1]})
+    # the largest packets the builder emits (max_datagram_size up to the 1500 bytes the native helpers allow), both directions
+    big = [["write", "c", 0, 0, 7000, False], ["write", "s", 3, 0, 7000, True], ["inbound", "s"], ["inbound", "c"], ["keyupdate", "c"],
+           ["write", "c", 0, 7000, 5000, True], ["write", "s", 1, 0, 5000, True], ["ping", "c"]]
+    for k, mds in enumerate((1500, 1499, 1497, 1485, 1472)):
+        jobs.append({"cfg": {"suite": SUITES[k % len(SUITES)], "version": "v2" if k % 2 else "v1", "mds": mds}, "ops": big,
+                     "seed": rnd.randrange(1 << 30), "forge": False, "thorough": not check.quick, "budget": 0, "slice": [0, 1]})
     matrix = [(s_, v) for s_ in SUITES for v in ("v1", "v2")] + [(SUITES[0], "v1->v2")]
     for k, (suite, ver) in enumerate(matrix):
         if check.quick and k % 2 and suite != SUITES[2]:
